@@ -21,6 +21,14 @@ pub struct Replay {
     pub violations: Vec<Violation>,
     #[serde(default)]
     pub extra: serde_json::Value,
+    /// cores visible to the process that found the case (salsa sizes its shard arrays from it, so
+    /// slot reuse of interned values depends on it); `vh replay` re-creates it
+    #[serde(default)]
+    pub ncpu: u32,
+}
+
+pub fn ncpu() -> u32 {
+    std::thread::available_parallelism().map(|n| n.get() as u32).unwrap_or(1)
 }
 
 #[derive(Clone, Debug, Default, Serialize, Deserialize)]
@@ -219,6 +227,7 @@ pub fn run_prop(spec: &PropSpec, cases: u32, seed: u64, replay_dir: &str, known:
                     case,
                     violations: out.violations,
                     extra: serde_json::Value::Null,
+                    ncpu: ncpu(),
                 };
                 let _ = std::fs::create_dir_all(replay_dir);
                 let path = format!("{replay_dir}/{}-seed{}-{:016x}.json", spec.id, seed, rp.case.hash());
